@@ -131,7 +131,7 @@ def _check_planned(c, orig, model, in_db, span, kwargs, plan, out):
         if not np.isfinite(want):
             c.inconc("planned:exogenized-cell-has-no-input-value")
             continue
-        if not (abs(got - want) <= 1e-10 * (1 + abs(want))):
+        if not (abs(got - want) <= 1e-10 * (1 + abs(want)) * tol):   # tol: the case's conditioning multiplier (impact cond / 1e3, at least 1)
             vio(f"planned:exogenized-point-missed:{method}:{kind}" + (":log-variable" if logly.get(n) else ""),
                 f"{n} in period index {k}: output {got!r}, exogenized input {want!r}")
             return
